@@ -302,6 +302,34 @@ def gen_large(sc, n_ops):
             sc.free(s)
     sc.verify()
 
+def gen_two_pools(sc, n_ops):
+    """two pools built on ONE policy object: their blocks must be disjoint, the callbacks of both arrive at the one
+    object (a pool that copies its policy hands out the same addresses twice)"""
+    rng, cfg = sc.rng, sc.cfg
+    sizes = interesting_sizes(cfg)
+    owner = {}
+    cur = 0
+    def switch(i):
+        nonlocal cur
+        if i != cur:
+            sc.lines.append("pool %d" % i); cur = i
+    while sc.nops < n_ops:
+        i = rng.randrange(2)
+        mine = [s for s in sc.live_slots() if owner.get(s) == i]
+        switch(i)
+        r = rng.random()
+        if r < 0.5 or not mine:
+            s = sc.alloc(rng.choice(sizes)); owner[s] = i
+        elif r < 0.75:
+            sc.free(rng.choice(mine))
+        elif r < 0.92:
+            sc.realloc(rng.choice(mine), rng.choice(sizes))
+        else:
+            sc.verify()
+    for i in (0, 1):
+        switch(i); sc.verify()
+    switch(0)
+
 def gen_huge(sc):
     """one allocation >= 4 GiB (only virtual address space is used: non-poisoning policies) mixed with ordinary ones:
     sb_reservation / length arithmetic beyond 32 bits, unmap of the whole reservation"""
@@ -331,10 +359,10 @@ def gen_huge(sc):
     sc.verify()
 
 MODES = {
-    "C01": ["mixed", "mixed", "fill", "fill", "large", "realloc", "fault"],
-    "C02": ["realloc", "realloc", "fill", "fill", "mixed", "large", "fault"],
-    "C03": ["large", "large", "realloc", "mixed", "fill", "fault"],
-    "C04": ["fault", "fault", "fault", "mixed_fail", "large", "fill"],
+    "C01": ["mixed", "mixed", "fill", "fill", "large", "realloc", "fault", "twopools"],
+    "C02": ["realloc", "realloc", "fill", "fill", "mixed", "large", "fault", "twopools"],
+    "C03": ["large", "large", "realloc", "mixed", "fill", "fault", "twopools"],
+    "C04": ["fault", "fault", "fault", "mixed_fail", "large", "fill", "twopools"],
 }
 
 def gen_case(rng, cfg, focus="C01", mode=None):
@@ -354,6 +382,8 @@ def gen_case(rng, cfg, focus="C01", mode=None):
         gen_large(sc, rng.choice([20, 60]))
     elif mode == "huge":
         gen_huge(sc)
+    elif mode == "twopools":
+        gen_two_pools(sc, rng.choice([20, 60]))
     return mode, sc.lines
 
 def by_name(cfgs, name):
@@ -389,6 +419,11 @@ def corpus(cfgs):
             cs.append(("corpus-page-eq-sb-" + q.name, [q.line, "a 0 %d ok" % (m + 1), "w 0 0 %d 3" % (m + 1), "g 0", "a 1 %d ok" % (3 * q.sb), "g 1",
                                                        "r 0 %d ok" % (m + 2), "g 0", "r 0 %d ok" % (2 * q.sb + 5), "c 0 0 24", "g 0", "v", "d 1 %d" % (3 * q.sb),
                                                        "f 0", "v", "a 2 %d ok" % (m + 1), "f 2", "v"]))
+    # seeded miss: the pool copied its policy object -- two pools on one policy object, interleaved
+    for q in cfgs:
+        m = q.maxsmall
+        cs.append(("corpus-two-pools-" + q.name, [q.line, "a 0 24 ok", "pool 1", "a 1 24 ok", "a 2 %d ok" % (m + 1), "pool 0", "a 3 %d ok" % (m + 1), "v",
+                                                  "pool 1", "v", "f 1", "f 2", "pool 0", "f 0", "f 3", "v"]))
     for q in cfgs:
         cs.append(("corpus-sizeclasses-" + q.name, [q.line, "sc"]))
         cs.append(("corpus-first-map-fails-" + q.name, [q.line, "a 0 24 fail", "a 1 24 ok", "a 2 %d fail" % (q.maxsmall + 1), "a 3 %d ok" % (q.maxsmall + 1),
